@@ -327,12 +327,23 @@ def _run_variant(args):
             try:
                 obs = _collect(tmp)
             except AnalysisError as e:
-                return (vid, "FALSE-ALARM" if kind == "refactor" else "detected", f"analysis error: {e}")
+                return (vid, "FALSE-ALARM" if kind == "refactor" else "MISSED", f"analysis error instead of a verdict: {e}")
             known = load_known()["known"]
             unl = [o for o in obs if o.status == "violation" and not any(known_match(p, o, known) for p in o.props)]
             if kind == "seed":
-                return (vid, "detected", f"{unl[0].rule} {unl[0].where} {unl[0].key}") if unl else (vid, "MISSED", "seeded mutation is no longer reported")
-            return (vid, "FALSE-ALARM", f"{unl[0].rule} {unl[0].where} {unl[0].key}: {unl[0].msg[:80]}") if unl else (vid, "neutral-ok", "no violation reported on the refactored tree")
+                # the seeded property itself must report a violation (directly or through a property it depends on)
+                from .props import scope
+                want = scope(payload[2]) if payload[2] else None
+                mine = [o for o in unl if want is None or want & set(o.props)]
+                if mine:
+                    return (vid, "detected", f"{mine[0].rule} {mine[0].where} {mine[0].key}")
+                return (vid, "MISSED", "seeded mutation is not reported by its own property" + (f" (only by {sorted({p for o in unl for p in o.props})})" if unl else ""))
+            if unl:
+                return (vid, "FALSE-ALARM", f"{unl[0].rule} {unl[0].where} {unl[0].key}: {unl[0].msg[:80]}")
+            und = [o for o in obs if o.status in ("unanalysed", "error")]
+            if und:
+                return (vid, "FALSE-ALARM", f"undecided on a behaviour-preserving refactoring (exit 2): {und[0].rule} {und[0].where} {und[0].key}")
+            return (vid, "neutral-ok", "no violation and no undecided obligation on the refactored tree")
         if kind == "break":
             _, props, rule, where, edits = payload
             stale = apply_edits(tmp, edits)
@@ -375,7 +386,7 @@ def _patch_variants():
     for d in sorted((root / "seeded").glob("*")):
         if (d / "patch.diff").exists() and (d / "meta.json").exists():
             meta = json.loads((d / "meta.json").read_text())
-            out.append(("seed", "seed:" + d.name, (str(d / "patch.diff"), sorted(meta.get("caught_by", {})))))
+            out.append(("seed", "seed:" + d.name, (str(d / "patch.diff"), sorted(meta.get("caught_by", {})), meta.get("property_broken"))))
     for d in sorted((root / "neutral").glob("*")):
         if (d / "patch.diff").exists():
             out.append(("refactor", "refactor:" + d.name, str(d / "patch.diff")))
